@@ -345,7 +345,7 @@ func (g *Generator) generateFlattenedUnmarshal(
 ) {
 	fieldGoName := variant.Field.GoName
 	wrapperType := variant.Field.GoIdent.GoName
-	msgType := variant.Field.Message.GoIdent.GoName
+	msgType := variant.Field.Message.GoIdent // qualified by protogen when the variant lives in another Go package
 	fieldJSONName := variant.Field.Desc.JSONName()
 
 	// Collect all child field JSON names for this variant
@@ -399,7 +399,7 @@ func (g *Generator) generateNestedUnmarshal(
 	fieldGoName := variant.Field.GoName
 	fieldJSONName := variant.Field.Desc.JSONName()
 	wrapperType := variant.Field.GoIdent.GoName
-	msgType := variant.Field.Message.GoIdent.GoName
+	msgType := variant.Field.Message.GoIdent // qualified by protogen when the variant lives in another Go package
 
 	gf.P("// Non-flattened unmarshal: the variant's own UnmarshalJSON if it has one, otherwise protojson")
 	gf.P(`if variantRaw, exists := raw["`, fieldJSONName, `"]; exists {`)
